@@ -70,8 +70,53 @@ def run_one(ctx, h, nops, triggers, model_in, expect):
         ctx.sample({'metamodel': mml, 'ops': lines[:10], 'objects': n})
 
 
+def derived_pass(ctx):
+    """classes that also declare *derived* references (computed, not stored: the default collection of a many-valued one
+    refuses every mutation): delete() has nothing to clear there, and must do the rest of its work"""
+    from pyecore import ecore as E
+    for k in range(24 if ctx.quick() else 200):
+        rng = common.sub_rng(ctx.seed, 'C07', 'derived', k)
+        X, A = E.EClass('X'), E.EClass('A')
+        decl = []
+        if k % 2 == 0 or rng.random() < .5:
+            decl.append(E.EReference('dm', X, upper=-1, derived=True))
+        if k % 2 == 1 or rng.random() < .3:
+            decl.append(E.EReference('ds', X, derived=True))
+        decl += [E.EReference('r', X), E.EReference('rs', X, upper=-1), E.EReference('kids', A, upper=-1, containment=True),
+                 E.EReference('peer', A)]
+        rng.shuffle(decl)
+        A.eStructuralFeatures.extend(decl)
+        if rng.random() < .5:
+            B = E.EClass('B', superclass=(A,))
+        else:
+            B = A
+        a, b, c = B(), A(), A()
+        xs = [X() for _ in range(3)]
+        a.r = xs[0]; a.rs.extend(xs[1:]); a.kids.append(c); b.peer = a; c.peer = a; c.r = xs[2]
+        ctx.evaluations += 1
+        ctx.count('delete/with-derived-reference')
+        ctx.nontriv(('derived', k))
+        desc = {'declared': [f.name for f in decl], 'subclass': B is not A}
+        try:
+            a.delete()
+        except Exception as e:
+            ctx.violate({'clause': 'delete-raised', 'trigger': 'none', 'derived': True},
+                        f'delete-raised: delete() of an object whose class declares derived references '
+                        f'{[f.name for f in decl if f.derived]} raised {type(e).__name__}: {e}', desc)
+            return
+        bad = []
+        if b.peer is not None:
+            bad.append('a survivor still refers to the deleted object')
+        if a.r is not None or len(a.rs) or len(a.kids) or c.peer is not None or c.r is not None or c.eContainer() is not None:
+            bad.append('the deleted objects still hold references / a container')
+        if bad:
+            ctx.violate({'clause': 'dangling', 'trigger': 'none', 'derived': True}, 'dangling: ' + '; '.join(bad), desc)
+            return
+
+
 def run(ctx):
     common.use_repo()
+    derived_pass(ctx)
     n = 150 if ctx.quick() else 2500
     nops = 22 if ctx.quick() else 35
     ctx.rule = (f'{n} generated trigger-free histories (<= {nops} mutations; every metamodel has at least one reference without '
